@@ -69,7 +69,7 @@ impl Engine for St {
             "C13" => vec![p("determ.repeat", 12000, 150_000), p("determ.partition", 12000, 150_000)],
             "C16" => vec![p("exact", 80000, 1_000_000)],
             "C15" => vec![p("oob.window", 160, 3000), p("oob.encode", 5000, 100_000), p("oob.decode", 25000, 600_000), p("oob.direct_bits", 20000, 300_000), p("oob.chunkend", 3000, 30_000)],
-            "C17" => vec![p("mem.encoder", 1200, 20000), p("mem.decoder.lzma", 4000, 60000), p("mem.decoder.lzma2", 2000, 30000), p("mem.limit", 8000, 100000), p("mem.estimator", 2000, 40000)],
+            "C17" => vec![p("mem.encoder", 1200, 8000), p("mem.decoder.lzma", 4000, 60000), p("mem.decoder.lzma2", 2000, 30000), p("mem.limit", 8000, 100000), p("mem.estimator", 2000, 40000)],
             "C19" => vec![p("misconfig", 30000, 300_000)],
             "C18" => vec![p("sizes", 40000, 600_000)],
             _ => vec![],
@@ -169,7 +169,7 @@ impl Engine for St {
             },
             "C17" => PropMeta {
                 level: "exploration",
-                rule: format!("allocator seam: a measurement scope around construction plus a complete run. mem.encoder: LZMAOptions::get_memory_usage() vs the peak of LZMA2Writer (25% with chunk_size) / LZMAWriter over std::io::sink(); mem.decoder.*: lzma_get_memory_usage / _by_props and lzma2_get_memory_usage vs the peak of LZMAReader / LZMA2Reader told that dictionary size; grid dict in {{4 KiB .. 8 MiB (quick), .. 256 MiB (thorough)}} plus random sizes x lc/lp/pb x mode x match finder. Oracle: peak <= estimate and estimate <= {} * peak + {} KiB (constants measured once on the repaired tree). mem.estimator: the estimators alone (no allocation) over dictionary sizes up to the encoder's maximum of 768 MiB and the decoder's of 4 GiB - 1: no panic (overflow checks are on), non-decreasing in the dictionary size, never below window + position table. mem.limit: .lzma headers (dict up to 2^32-1, props incl. invalid) x limits need-10^6, -1, 0, +1, +1000 KiB: need > limit must give OutOfMemory with no request above 64 KiB before the error. Peak = requested bytes, not resident pages. Non-trivial: every run; distinct = distinct (parameters, estimate, peak) digests.", memory::F, memory::S >> 10),
+                rule: format!("allocator seam: a measurement scope around construction plus a complete run. mem.encoder: LZMAOptions::get_memory_usage() vs the peak of LZMA2Writer (25% with chunk_size) / LZMAWriter over std::io::sink(); mem.decoder.*: lzma_get_memory_usage / _by_props and lzma2_get_memory_usage vs the peak of LZMAReader / LZMA2Reader told that dictionary size; grid dict in {{4 KiB .. 8 MiB (quick), .. 32 MiB (thorough)}} plus random sizes x lc/lp/pb x mode x match finder. Oracle: peak <= estimate and estimate <= {} * peak + {} KiB (constants measured once on the repaired tree). mem.estimator: the estimators alone (no allocation) over dictionary sizes up to the encoder's maximum of 768 MiB and the decoder's of 4 GiB - 1: no panic (overflow checks are on), non-decreasing in the dictionary size, never below window + position table. mem.limit: .lzma headers (dict up to 2^32-1, props incl. invalid) x limits need-10^6, -1, 0, +1, +1000 KiB: need > limit must give OutOfMemory with no request above 64 KiB before the error. Peak = requested bytes, not resident pages. Non-trivial: every run; distinct = distinct (parameters, estimate, peak) digests.", memory::F, memory::S >> 10),
                 assumptions: vec!["requested bytes are measured, not resident memory".into()],
                 real: real.clone(), stubs: stubs.clone(), exhaustive_part: None,
             },
